@@ -118,7 +118,8 @@ def plan(rng, tier):
     follow = [g.op() for _ in range(rng.randint(4, 12))]
     return {"cfg": cfg, "build": build, "op": op, "follow": follow,
             "idx": [rng.randrange(1 << 16) for _ in range(3)],
-            "_all": True}
+            "_all": True,
+            "exc": rng.choice(["own", "own", "TypeError", "KeyError"])}
 
 
 def simplify(plan):
@@ -253,6 +254,26 @@ def _raise():
     raise keys.SimCompareError("injected")
 
 
+# The injected exception need not be of a class of its own: user comparisons
+# raise TypeError (mixed types) and KeyError too, and those are classes the
+# package itself catches in places ("unusable key" -> absent, discard).  For
+# the operations below neither implementation is supposed to catch anything,
+# so there the fault is also injected as a plain TypeError / KeyError.
+EXC_CLASSES = {"own": keys.SimCompareError, "TypeError": TypeError,
+               "KeyError": KeyError}
+# (not -= &= ^=: they delete through a KeyError-tolerant path by design)
+NO_CATCH_OPS = ("set", "add", "sinsert", "insert", "del", "remove", "pop",
+                "spop", "popitem", "update", "supdate", "ior", "ctork")
+
+
+def _raiser(name):
+    cls = EXC_CLASSES[name]
+
+    def f():
+        raise cls("injected")
+    return f
+
+
 def _contents_verdict(op, L0, L1, got, mapping, extra=None):
     """'old' / 'completed' / 'mixed' / None (=neither)"""
     if ops.same_value(got, L0):
@@ -328,7 +349,11 @@ def _one(plan, dom, cfg, ctx, n, ncmp, L0, L1, baseline, tracked, h, base):
     hook = keys.HOOK
     c = _build(plan, dom)
     live = [(c, mapping)]
-    hook.arm(n, _raise)
+    excname = plan.get("exc", "own")
+    if opn not in NO_CATCH_OPS:
+        excname = "own"
+    want_exc = EXC_CLASSES[excname].__name__
+    hook.arm(n, _raiser(excname))
     out = _do(plan, dom, c, live)
     fired = hook.fired
     hook.disarm()
@@ -338,7 +363,9 @@ def _one(plan, dom, cfg, ctx, n, ncmp, L0, L1, baseline, tracked, h, base):
     site = "first" if n == 1 else ("last" if n == ncmp else "inner")
     sig = dict(base, site=site)
     ctx.ev(opn, n, ncmp, out[0], out[1] if out[0] == "exc" else None)
-    if out != ("exc", "SimCompareError"):
+    if excname != "own":
+        sig["exc"] = excname
+    if out != ("exc", want_exc):
         raise Violation(
             dict(sig, oracle="not-propagated",
                  got=out[1] if out[0] == "exc" else "returned"),
